@@ -20,14 +20,22 @@ use std::collections::BTreeMap;
 use std::time::{Duration, UNIX_EPOCH};
 use vh::{rec, util};
 
-fn ms(k: u64) -> Duration {
-    Duration::from_millis(k)
+/// Length of the model's time unit in microseconds: 1000 (one millisecond) everywhere except in the
+/// `subms` mode of `random`, where `unit_us=500` makes a tick of 5 units a 2.5 ms tick.
+static UNIT_US: std::sync::atomic::AtomicU64 = std::sync::atomic::AtomicU64::new(1000);
+fn unit_us() -> u64 {
+    UNIT_US.load(std::sync::atomic::Ordering::Relaxed)
 }
 
-/// whole milliseconds, or -1
+fn ms(k: u64) -> Duration {
+    Duration::from_micros(k * unit_us())
+}
+
+/// whole units (milliseconds unless `unit_us` says otherwise), or -1
 fn whole_ms(d: Duration) -> i64 {
-    if d.subsec_nanos() % 1_000_000 == 0 {
-        d.as_millis() as i64
+    let unit_ns = unit_us() as u128 * 1000;
+    if d.as_nanos() % unit_ns == 0 {
+        (d.as_nanos() / unit_ns) as i64
     } else {
         -1
     }
@@ -649,6 +657,7 @@ fn main_random(args: &[String]) {
     let mut rng = SmallRng::seed_from_u64(seed ^ 0x73696d72);
     let mut all: Vec<Value> = Vec::new();
     let mut ncalls = 0u64;
+    UNIT_US.store(util::arg_u64(args, "unit_us", 1000), std::sync::atomic::Ordering::Relaxed);
     rec::with_recorder(|| {
         for r in 0..runs {
             let cfg = Cfg {
@@ -659,6 +668,17 @@ fn main_random(args: &[String]) {
                 seed: seed.wrapping_mul(1000).wrapping_add(r),
             };
             let mut run = Run::new(&cfg);
+            if mode == "subms" {
+                // a tick that is not a whole number of milliseconds: only the simulation's own clock is read
+                // (Sim::elapsed / since_epoch between steps).  No node is registered: tokio's paused clock
+                // rounds timers up to whole milliseconds, so what programs observe there is outside the claim.
+                for _ in 0..rng.random_range(3..=10) {
+                    ncalls += 1;
+                    run.step();
+                }
+                all.extend(postprocess(rec::take()));
+                continue;
+            }
             let mut hosts: Vec<usize> = Vec::new();
             let ncalls_here = rng.random_range(4..=12);
             for _ in 0..rng.random_range(1..=3) {
